@@ -272,6 +272,18 @@ class TOpaque(Ty):
         return _dt(self.key, lambda: z3.DeclareSort(_mangle(self.name)))
 
 
+class _Sink(Ty):
+    """Reporting / UI objects (formatters, output dicts): every method call on a sink is a no-op that returns a
+    sink, stores into it are dropped.  Using a sink in control flow is unsupported (=> undecided), so abstracting
+    these objects cannot hide an effect on the tracked state."""
+    key = "Sink"
+
+    def sort(self):
+        return _dt("Sink", lambda: z3.DeclareSort("Sink"))
+
+
+SINK = _Sink()
+
 SLICE = TRec("slice", {"start": INT, "stop": INT})
 
 # mutable-class field tables:  cls name -> {field: Ty}
